@@ -88,6 +88,8 @@ Init == /\ nt \in NTs /\ now = 0
 Fix == UNCHANGED nt
 
 Plan(t, st, iv) == /\ t \in Timers /\ S' = PlanAt(S, t, st, iv) /\ UNCHANGED <<now, sm>> /\ Fix
+\* start given relative to the current time (the form the exhaustive configuration enumerates)
+PlanRel(t, ds, iv) == /\ t \in Timers /\ S' = PlanAt(S, t, now + ds, iv) /\ UNCHANGED <<now, sm>> /\ Fix
 \* plan(tim) with the parameters the timer already has
 Replan(t) == /\ t \in Timers /\ S' = PlanIns(S, t) /\ UNCHANGED <<now, sm>> /\ Fix
 Unplan(t) == /\ t \in Timers /\ S' = UnplanT(S, t) /\ UNCHANGED <<now, sm>> /\ Fix
@@ -103,7 +105,7 @@ SSwift        == sm' = [sm EXCEPT !.start = sm.start + sm.interval] /\ UNCHANGED
 SCheck(s, tm) == s.planed = 1 /\ tm - s.start >= s.interval
 
 MaxT == CHOOSE x \in NTs : \A y \in NTs : y <= x
-Next == \/ \E t \in 1..MaxT, st \in Starts, iv \in Intervals : Plan(t, now + st, iv)
+Next == \/ \E t \in 1..MaxT, ds \in Starts, iv \in Intervals : PlanRel(t, ds, iv)
         \/ \E t \in 1..MaxT : Replan(t)
         \/ \E t \in 1..MaxT : Unplan(t)
         \/ \E t \in 1..MaxT, e \in Effects : SetCb(t, e)
